@@ -19,7 +19,11 @@ func shrinkCrash(cfg *propCfg, b *build, rf replayFile) replayFile {
 		os.Setenv("VERIF_HANG_MS", "20000")
 		v, _ := replayOnce(cfg, b, &rf)
 		os.Unsetenv("VERIF_HANG_MS")
-		if v == nil || v.Kind != "hang" {
+		if v != nil && v.Kind != "hang" {
+			rf.Violation = *v // replayed alone the case ends with an ordinary violation: report that one
+			return rf
+		}
+		if v == nil {
 			infra("a case exceeded the watchdog limit but finished when replayed alone (overloaded machine?): %s", rf.Violation.Site)
 		}
 		return rf
